@@ -31,6 +31,10 @@ JAR = "/opt/veriftools/tla/tla2tools.jar:/opt/veriftools/tla/CommunityModules-de
 TLA_COMMON = os.path.join(ROOT, "tla", "common")
 
 
+class CheckAborted(Exception):
+    """a violation that ends the run (the harness process died in the code under test); already recorded with Ctx.fail"""
+
+
 class ToolError(Exception):
     pass
 
@@ -132,7 +136,7 @@ class Ctx:
     # ------------------------------------------------------------------ TLC
     def tlc(self, tladir, module, cfg, *, workers=8, simulate=None, depth=None,
             timeout=1800, xmx="6g", env=None, name=None, coverage=False,
-            allow_violation=False, consts=None):
+            allow_violation=False, consts=None, eval_error_is_rejection=False):
         """Run TLC; returns dict(tags={TAG: path-to-ndjson}, generated, distinct, out, ok).
         Lines `<<"TAG", "json">>` printed by the spec are collected per TAG."""
         name = name or os.path.splitext(cfg)[0]
@@ -210,6 +214,14 @@ class Ctx:
                 self.fail("spec:%s:%s" % (module, violated[0].strip()),
                           {"kind": "tlc-invariant", "module": module, "cfg": cfg,
                            "tlc_output": outp, "message": violated[0].strip()})
+            elif eval_error_is_rejection and distinct >= 1 and "The error occurred when TLC was evaluating" in open(outp).read():
+                # trace validation: TLC could not even COMPARE the logged value of the next event with the
+                # specification's (a text where a record / number is expected, a missing field ...): the event is
+                # not one the specification allows.  (On the unchanged tree no trace does this.)
+                txt = open(outp).read()
+                m = re.search(r"The exception was a [\w.]+\s*\n?: (.*)", txt)
+                return {"tags": tags, "generated": generated, "distinct": distinct, "out": outp, "ok": False, "wall": dt,
+                        "violated": [], "eval_error": {"at": distinct, "tlc_error": (m.group(1) if m else "evaluation error")[:400]}}
             else:
                 sys.stderr.write("\n".join(open(outp).read().splitlines()[-40:]) + "\n")
                 raise ToolError("TLC failed on %s/%s (rc=%d)" % (module, cfg, rc))
@@ -241,7 +253,9 @@ class Ctx:
             env["KNOWN"] = os.environ["KNOWN"]
         env.update(extra_env or {})
         r = self.tlc(tladir, module, cfg, workers=1, timeout=timeout, xmx=xmx, env=env,
-                     name=name, allow_violation=True)
+                     name=name, allow_violation=True, eval_error_is_rejection=True)
+        if r.get("eval_error"):
+            return {"accepted": False, "info": json.dumps(r["eval_error"]), "out": r["out"]}
         # trace runs do not count as model states
         self.states -= r["distinct"]
         self.transitions -= r["generated"]
@@ -322,12 +336,40 @@ class Ctx:
     # ------------------------------------------------------------- harness
     def cvh(self, args, timeout=3600, check=True):
         cmd = [CVH] + [str(a) for a in args]
+        lp = os.path.join(self.work, "last_panic.txt")
+        try:
+            os.remove(lp)
+        except OSError:
+            pass
         env = dict(os.environ, VERIF_SEED=str(self.seed), VERIF_TIER=self.tier,
-                   RUST_BACKTRACE="0")
+                   RUST_BACKTRACE="0", CVH_LAST_PANIC=lp)
         p = subprocess.run(["timeout", str(timeout)] + cmd, cwd=ROOT, env=env,
                            stdout=subprocess.PIPE, stderr=subprocess.PIPE, text=True)
         if p.returncode != 0 and check:
             sys.stderr.write(p.stderr[-4000:])
+            what = " ".join(map(str, args[:2]))
+            died = None
+            # the harness reports its own problems with exit code 2; a process that DIED while feeding the
+            # specification's behaviours to calamine (replay / drive) died in the code under test: uncaught panic
+            # (101) whose location is not in the harness, allocation abort (SIGABRT), kill (SIGKILL: out of memory)
+            if args and args[0] in ("replay", "drive"):
+                last = ""
+                try:
+                    last = open(lp).read()
+                except OSError:
+                    pass
+                if p.returncode == 101 and last and "harness" not in last.split(" @ ")[-1] and not last.startswith("harness"):
+                    died = ("died:panic", last)
+                elif p.returncode in (-6, 134) and "memory allocation of" in p.stderr:
+                    died = ("died:abort:alloc", p.stderr.strip().splitlines()[0][-200:])
+                elif p.returncode in (-9, 137):
+                    died = ("died:killed", "SIGKILL (out of memory)")
+            if died:
+                self.fail("%s:%s" % (died[0], what.replace(" ", "-")),
+                          {"kind": "process-death", "cmd": [str(a) for a in args], "rc": p.returncode, "info": died[1],
+                           "note": "the harness process died while the specification's behaviours were played on calamine: "
+                                   "no result was delivered for an input the property quantifies over"})
+                raise CheckAborted(died[0])
             raise ToolError("cvh %s failed rc=%d" % (" ".join(map(str, args[:3])), p.returncode))
         return p
 
